@@ -26,6 +26,8 @@ that are both supplied and produced, ids that are not in the graph.
                               complete and minimal (`PlanOK`).
 * `c03_complete`        (T2c) on unique-producer graphs, if any `PlanOK` plan exists then
                               planning succeeds (converse of T2b).
+* `c03_initial_frontier_nonempty`  the `debug_assert!(!frontier.is_empty())` of `sort_plan`
+                              never fires.
 * `c03_sort_perm`       (T4)  the returned plan is a permutation of the depth-first plan.
 * `c03_sort_orig_*`           the same statements are *false* for `sort_plan` as it was
                               before commit "fix: planner: never schedule an operator
@@ -429,5 +431,120 @@ theorem c03_sort_orig_diverges_all (fuel : Nat) :
 
 /-- The same request with the code as it stands. -/
 theorem c03_sort_fixed_witnessCyc : createPlan witnessCyc [0] [1] {} = .ok [4, 3] := by decide
+
+/-! ## the `debug_assert!(!frontier.is_empty())` site -/
+
+/-- **`debug_assert!(!frontier.is_empty(), "initial frontier is empty")`
+(planner.rs, `sort_plan`) never fires**: whenever `create_plan` reaches `sort_plan` (the
+traversal succeeded, `allow_missing_inputs` is off and the plan is non-empty) at least one
+planned operator has all its dependencies available from the start — the first entry of
+the depth-first plan. -/
+theorem c03_initial_frontier_nonempty {g : Graph} {ins outs : List Nat} {opts : PlanOptions}
+    {st : St} (hd : dfsPlan g ins outs opts = .ok st) (ham : opts.allowMissing = false)
+    (hne : st.plan ≠ []) :
+    st.plan.filter
+      (fun e => depsResolved g (resolvedNew g ins opts.capturesAvailable) e.2) ≠ [] := by
+  obtain ⟨hinv, _⟩ := dfsPlan_spec hd
+  rw [ham] at hinv
+  cases hp : st.plan with
+  | nil => exact absurd hp hne
+  | cons e es =>
+    have hv := hinv.valid
+    rw [hp] at hv
+    have hready : depsResolved g (resolvedNew g ins opts.capturesAvailable) e.2 = true := by
+      rw [depsResolved_iff]
+      intro d hd'
+      rcases hv.1 d hd' with h | ⟨h, _⟩
+      · exact h
+      · cases h
+    intro hnil
+    have : e ∈ (e :: es).filter
+        (fun e => depsResolved g (resolvedNew g ins opts.capturesAvailable) e.2) :=
+      List.mem_filter.mpr ⟨List.mem_cons_self .., hready⟩
+    rw [hnil] at this
+    cases this
+
+/-- Non-vacuity: `diamond` reaches `sort_plan` with initial frontier `[4]`. -/
+example : (dfsPlan diamond [0] [7] {}).toOption.map (fun st =>
+    (st.plan.filter (fun e => depsResolved diamond (resolvedNew diamond [0] true) e.2)).map
+      (fun e => e.1)) = some [4] := by decide
+
+/-! ## T2c instantiated -/
+
+theorem diamond_uniqueProducer : UniqueProducer diamond := uniqueProducer_of_upCheck (by decide)
+
+theorem diamond_argsOK : ArgsOK diamond [0] [7] := ⟨by decide, by decide, by decide, by decide⟩
+
+/-- A `PlanOK` plan for `diamond` that is *not* the one `createPlan` returns: the
+depth-first order `[4,5,6,8]`. -/
+theorem diamond_dfs_planOK : PlanOK diamond false [0] [7] [4, 5, 6, 8] := by
+  have hd : dfsPlan diamond [0] [7] {} = .ok
+      { resolved := [0, 1, 2, 3, 7],
+        plan := [(4, { inputs := [some 0], outputs := [some 1] }),
+          (5, { inputs := [some 1], outputs := [some 2], inPlace := true }),
+          (6, { inputs := [some 1], outputs := [some 3] }),
+          (8, { inputs := [some 2, some 3], outputs := [some 7] })],
+        active := [] } := by decide
+  exact dfs_plan_ok hd
+
+/-- `c03_complete` instantiated: from the existence of the plan `[4,5,6,8]` it follows that
+`createPlan` succeeds (it returns the different plan `[4,6,5,8]`). -/
+example : ∃ plan, createPlan diamond [0] [7] {} = .ok plan ∧ PlanOK diamond false [0] [7] plan :=
+  c03_complete (opts := {}) diamond_uniqueProducer diamond_argsOK diamond_dfs_planOK
+
+/-- `c03_error_iff_unsat` instantiated in the other direction: without the input `0` the
+request fails, hence **no** sequence of operators whatsoever is a `PlanOK` plan for it. -/
+theorem diamond_unsat_without_input : ¬∃ Q, PlanOK diamond false [] [7] Q := by
+  have hargs : ArgsOK diamond [] [7] := ⟨by decide, by decide, by decide, by decide⟩
+  exact (c03_error_iff_unsat (opts := {}) diamond_uniqueProducer hargs).mp
+    ⟨.missingInput, by decide⟩
+
+/-! ## T2b — one example per error class, options and captures -/
+
+/-- `.missingInput`, with the cause `c03_error_cause` extracts. -/
+example : createPlan diamond [] [7] {} = .error .missingInput ∧
+    ErrCause diamond {} [] [7] .missingInput :=
+  ⟨by decide,
+   c03_error_cause (g := diamond) (ins := []) (outs := [7]) (opts := {}) (e := .missingInput)
+     ⟨by decide, by decide, by decide, by decide⟩ (by decide)⟩
+
+/-- `.noSource`: the requested output 0 is a graph input that is not supplied. -/
+example : createPlan diamond [] [0] {} = .error .noSource ∧
+    ErrCause diamond {} [] [0] .noSource :=
+  ⟨by decide,
+   c03_error_cause (g := diamond) (ins := []) (outs := [0]) (opts := {}) (e := .noSource)
+     ⟨by decide, by decide, by decide, by decide⟩ (by decide)⟩
+
+/-- `allowMissing := true`: the same two requests succeed; the plan is the depth-first one
+and the missing value counts as available (`Avail`'s second disjunct). -/
+example : createPlan diamond [] [7] { allowMissing := true } = .ok [4, 5, 6, 8] := by decide
+example : createPlan diamond [] [0] { allowMissing := true } = .ok [] := by decide
+example : PlanOK diamond true [] [7] [4, 5, 6, 8] :=
+  c03_plan_ok (g := diamond) (ins := []) (outs := [7]) (plan := [4, 5, 6, 8])
+    (opts := { allowMissing := true })
+    ⟨by decide, by decide, by decide, by decide⟩ (by decide)
+
+/-- A subgraph operator (3) that captures value 1, and value 1 is also a capture of the
+graph itself: available iff `capturesAvailable`. -/
+def capGraph : Graph :=
+  { nodes := [.value, .value, .value,
+      .operator { inputs := [some 0], outputs := [some 2], captureIds := [1] }],
+    captures := [1] }
+
+example : opDeps capGraph { inputs := [some 0], outputs := [some 2], captureIds := [1] } = [0, 1] := by
+  decide
+example : createPlan capGraph [0] [2] {} = .ok [3] := by decide
+example : createPlan capGraph [0] [2] { capturesAvailable := false } = .error .missingInput ∧
+    ErrCause capGraph { capturesAvailable := false } [0] [2] .missingInput :=
+  ⟨by decide,
+   c03_error_cause (g := capGraph) (ins := [0]) (outs := [2])
+     (opts := { capturesAvailable := false }) (e := .missingInput)
+     ⟨by decide, by decide, by decide, by decide⟩ (by decide)⟩
+/-- With the capture produced by another operator the producer is scheduled first. -/
+example : createPlan
+    { nodes := [.value, .value, .value,
+        .operator { inputs := [some 0], outputs := [some 2], captureIds := [1] },
+        .operator { inputs := [some 0], outputs := [some 1] }] } [0] [2] {} = .ok [4, 3] := by
+  decide
 
 end RtenVerif.Planner
